@@ -6,10 +6,24 @@ import json, os, sys
 root = os.path.dirname(os.path.dirname(os.path.abspath(__file__)))
 props = [json.loads(l) for l in open(os.path.join(root, "properties.jsonl"))]
 src = json.load(open(os.path.join(root, "tools", "checks.json")))
+import subprocess
+expl = json.loads(subprocess.run([os.path.join(root, "bin", "dsv"), "-explain"], capture_output=True, text=True, check=True).stdout)
+def rules_of(pid):
+    """rule ids and texts as registered by the checker on its last run (evidence file)"""
+    try:
+        ev = json.load(open(os.path.join(root, "evidence", pid + ".json")))
+        rs = ev["coverage"]["rules"]
+        return "; ".join(r.split(".", 1)[-1] if isinstance(r, str) else str(r) for r in rs)
+    except Exception as e:
+        return ""
 checks, na = [], []
 for p in props:
     pid = p["id"]
     ck = src["checks"].get(pid)
+    if ck and pid in expl:
+        ck = dict(ck)
+        rl = rules_of(pid)
+        ck["text"] = expl[pid]["explanation"] + (" Rules as registered by the checker: " + rl + "." if rl else "")
     if ck:
         checks.append({
             "property_id": pid,
@@ -30,7 +44,7 @@ m = {
     "hooks": {"guard": "verif", "enable": "none needed: static analysis reads /repo's sources; no hooks are compiled into grafana/dskit",
               "baseline_off_cmd": "cd /repo && go test -vet=off -count=1 -timeout 25m ./...", "source_commits": [], "add_only": True},
     "engines": [{"name": "dsv", "path": "/verif/cmd/dsv", "serves_properties": [c["property_id"] for c in checks],
-                 "kind_free_text": "repository-specific static analyser (go/packages + go/types + go/cfg + go/ssa/VTA): finite-domain guard tables, path/dominance rules, census/provenance, lockset, effect cones, table extraction"}],
+                 "kind_free_text": "repository-specific static analyser (go/packages + go/types + go/cfg; no SSA, no solver): finite-domain guard tables, path/dominance rules, census/provenance, lockset, effect cones, table extraction"}],
     "checks": checks,
     "notes": src.get("notes", ""),
     "not_applicable": na,
